@@ -923,6 +923,42 @@ func (se *specEnv) call(e *SExpr) SVal {
 			return SVal{tv, sig.Results()}
 		}
 		return SVal{v, sig.Results().At(0).Type()}
+	case "hastype":
+		// hastype(x, "int64" | "float64" | "bool" | "string" | "encoding/json.Number"): dynamic type of an interface value
+		x := se.eval(e.Args[0])
+		var tt types.Type
+		switch name := e.Args[1].Str; name {
+		case "int64":
+			tt = types.Typ[types.Int64]
+		case "float64":
+			tt = types.Typ[types.Float64]
+		case "bool":
+			tt = types.Typ[types.Bool]
+		case "string":
+			tt = types.Typ[types.String]
+		default:
+			dot := strings.LastIndex(name, ".")
+			if dot < 0 {
+				sfail("hastype: unknown type %q", name)
+			}
+			for _, pk := range f.ctx.eng.pkgs {
+				if pk.Types == nil {
+					continue
+				}
+				for _, imp := range pk.Types.Imports() {
+					if imp.Path() == name[:dot] {
+						if tn, ok := imp.Scope().Lookup(name[dot+1:]).(*types.TypeName); ok {
+							tt = tn.Type()
+						}
+					}
+				}
+			}
+			if tt == nil {
+				sfail("hastype: type %q not found among the imports of the loaded packages", name)
+			}
+		}
+		id := f.ctx.eng.sorts.TypeID(tt)
+		return SVal{Eq(App("typeof", SInt, f.asTerm(x.V)), IntLit(int64(id))), tb}
 	case "isstring":
 		// isstring(x): the dynamic type of the interface value x is string
 		x := se.eval(e.Args[0])
